@@ -41,10 +41,10 @@ class Driver:
             return {'status': 'driver_died', 'rc': rc}
         return json.loads(line)
     def run(self, prog, vm='raw', mem=b'', mbuff=b'', extra=b'', engine='interp', helpers=(), allowed=(), patch=(),
-            stack_usage=None, guard='end', verifier='default', fixed=None, isolate=True, timeout_s=20):
+            stack_usage=None, guard='end', verifier='default', fixed=None, isolate=True, timeout_s=20, bufpatch=()):
         req = dict(op='run', vm=vm, prog=bytes(prog).hex(), mem=bytes(mem).hex(), mbuff=bytes(mbuff).hex(), extra=bytes(extra).hex(),
                    engine=engine, helpers=[list(h) for h in helpers], allowed=[list(a) for a in allowed], patch=[list(p) for p in patch],
-                   guard=guard, verifier=verifier, isolate=isolate, timeout_s=timeout_s)
+                   guard=guard, verifier=verifier, isolate=isolate, timeout_s=timeout_s, bufpatch=[list(b) for b in bufpatch])
         if stack_usage is not None: req['stack_usage'] = stack_usage
         if fixed is not None: req['fixed'] = list(fixed)
         r = self.request(req)
